@@ -177,7 +177,39 @@ def entirely_undefined(arr, mode_kind):
     return False
 
 
-def reference_cascade(leaves, fmt, mode, start):
+def nearest_merger(big):
+    """A user-supplied merger as the Merger Protocol allows: keeps one sample of every 2x2 block (categorical / mask
+    data). Returns a *view* of its argument."""
+    return big[::2, ::2]
+
+
+def blockmax_merger(big):
+    s = (big.shape[0] // 2, 2, big.shape[1] // 2, 2) + big.shape[2:]
+    import warnings
+    with warnings.catch_warnings():
+        warnings.simplefilter("ignore")
+        if big.dtype.kind == "f":
+            return np.nanmax(big.reshape(s), axis=(1, 3)).astype(big.dtype)
+        return np.max(big.reshape(s), axis=(1, 3)).astype(big.dtype)
+
+
+MERGERS = {"stock": None, "nearest_view": nearest_merger, "blockmax": blockmax_merger}
+
+
+def ref_merge(kind, mosaic, bottom_up):
+    """Reference result of merger `kind` on a display-oriented mosaic (the merger itself sees the stored orientation)."""
+    if kind == "stock":
+        return reduce2x2(mosaic)
+    if kind == "nearest_view":
+        return (mosaic[1::2, ::2] if bottom_up else mosaic[::2, ::2]).copy()
+    a, b, c, d = mosaic[0::2, 0::2], mosaic[0::2, 1::2], mosaic[1::2, 0::2], mosaic[1::2, 1::2]
+    if mosaic.dtype.kind == "f":
+        with np.errstate(all="ignore"):
+            return np.fmax(np.fmax(a, b), np.fmax(c, d))
+    return np.maximum(np.maximum(a, b), np.maximum(c, d))
+
+
+def reference_cascade(leaves, fmt, mode, start, merger="stock"):
     """leaves: {Pos: stored array}.  Returns {Pos: stored array} for all levels < start."""
     bottom_up = fmt == "fits"
     cur = {p: (a[::-1] if bottom_up else a) for p, a in leaves.items()}
@@ -196,7 +228,7 @@ def reference_cascade(leaves, fmt, mode, start):
                     ch = cur.get(Pos(level + 1, 2 * pp.x + i, 2 * pp.y + j))
                     if ch is not None:
                         place(mosaic, ch, mode, slice(j * 256, j * 256 + 256), slice(i * 256, i * 256 + 256))
-            merged = reduce2x2(mosaic)
+            merged = ref_merge(merger, mosaic, bottom_up)
             if fmt == "jpg":
                 merged = merged[..., :3]
             if entirely_undefined(merged, mode):
@@ -288,7 +320,7 @@ def run_core(ch, env, prop):
     p_pop = (0.5, 0.2, 0.9, 1.0)[ch.draw(4, kind="p_populated")]
     seed = ch.draw(1 << 16, kind="content_seed")
     use_filter = ch.draw(4, kind="use_filter") == 3
-    via_builder = c14 and ch.draw(2, kind="via_builder") == 1
+    via_builder = c14 and ch.draw(2, kind="via_builder") == 1     # Builder.cascade always uses the stock merger
     scheme = ("L/Y/YX", "LXY")[ch.draw(2, p0=0.75, kind="scheme")]
     rng = np.random.RandomState(seed)
     leaves = {}
@@ -321,7 +353,15 @@ def run_core(ch, env, prop):
     if not leaves:
         arr = gen_leaf(rng, "RGB" if mode == "RGBmix" else mode, 0, (10, 200, 90) if fmt == "jpg" else None)
         leaves[allpos[0]] = arr
-    ref = reference_cascade(leaves, fmt, mode, start)
+    # the merger is the caller's: mostly the stock one, sometimes a user-supplied one (placement / existence hold for all)
+    merger_kind = "stock"
+    if not c14:
+        mk = ch.draw(8, kind="merger")
+        if mk == 6 and fmt != "jpg":        # lossless formats only: decimation does not smooth JPEG ringing away
+            merger_kind = "nearest_view"
+        elif mk == 7 and mode in ("F32", "F64", "U8", "I16", "I32") and fmt != "jpg":
+            merger_kind = "blockmax"
+    ref = reference_cascade(leaves, fmt, mode, start, merger_kind)
     maxabs = 0.0
     if DTYPES.get(mode, np.uint8)(0).dtype.kind == "f":
         maxabs = max(float(np.max(np.abs(a.astype(np.float64))[np.isfinite(a)], initial=0.0)) for a in leaves.values())
@@ -377,11 +417,11 @@ def run_core(ch, env, prop):
     sparse = any(sum(1 for c in pos_children(pp) if c in have) < 4 for pp in ref)
     res = {"config": {"format": fmt, "mode": mode, "start": start, "workers": workers, "n_leaves": len(leaves),
                       "leaves": sorted(tuple(p) for p in leaves)[:24], "n_stale": n_stale, "filter": use_filter,
-                      "via_builder": via_builder, "content_seed": seed, "n_parents_expected": len(ref), "scheme": scheme},
+                      "via_builder": via_builder, "merger": merger_kind, "content_seed": seed, "n_parents_expected": len(ref), "scheme": scheme},
            "extra": {"combo_%s_%s" % (fmt, mode): 1, "workers_%d" % workers: 1, "start_%d" % start: 1},
            "probes": {"stale_parent_planted": n_stale, "sparse_parent": int(sparse), "with_filter": int(use_filter),
                       "parallel_runs": int(workers > 1),
-                      "deep_cascade": int(deep),
+                      "deep_cascade": int(deep), "user_merger": int(merger_kind != "stock"),
                       "merged_all_undefined": int(any(pp not in ref for pp in parent_cands))}}
 
     common.draw_progress(ch, res)
@@ -402,7 +442,7 @@ def run_core(ch, env, prop):
             b.cascade(**dict(kw, **common.pkw()))
             builder_box["b"] = b
         else:
-            cascade_images(pio, start, averaging_merger, parallel=workers, tile_filter=tile_filter, **common.pkw())
+            cascade_images(pio, start, MERGERS[merger_kind] or averaging_merger, parallel=workers, tile_filter=tile_filter, **common.pkw())
 
     main_task = sim.run(main)
     common.sim_summary(sim, res)
